@@ -52,13 +52,13 @@ func BulkScoring(goroutines int) []string {
 			if err != nil {
 				return "error " + err.Error()
 			}
-			return fmt.Sprint(m.Base.Score(), m.Temporal.Score(), m.Score(), m.Severity())
+			return fmt.Sprint(Z(m.Base.Score()), Z(m.Temporal.Score()), Z(m.Score()), m.Severity())
 		}
 		m, err := v2.NewEnvironmental().Decode(s)
 		if err != nil {
 			return "error " + err.Error()
 		}
-		return fmt.Sprint(m.Base.Score(), m.Temporal.Score(), m.Score(), m.Severity())
+		return fmt.Sprint(Z(m.Base.Score()), Z(m.Temporal.Score()), Z(m.Score()), m.Severity())
 	}
 	got := make([][]string, goroutines)
 	var wg sync.WaitGroup
@@ -89,4 +89,84 @@ func BulkScoring(goroutines int) []string {
 		}
 	}
 	return mism
+}
+
+// Stress: many goroutines (more than cores), each decoding, encoding and scoring vectors of its
+// own on private objects for a fixed number of rounds, free-running and WITHOUT the race detector
+// (which slows the library so much that narrow windows close).  Defects that need three or more
+// goroutines inside one lock-free structure at once (an ABA in a free list of scratch buffers,
+// round 6: C08-B-r6, C10-A-r6) are out of reach of the bounded interleaving search; this stage is
+// sampling, the labelled complement, and can only ever add detections.
+func Stress(goroutines, rounds int) (mism []string, ops int64) {
+	type job struct {
+		s    string
+		want string
+	}
+	run := func(s string) string {
+		if strings.HasPrefix(s, "CVSS:") {
+			m, err := v3.NewEnvironmental().Decode(s)
+			if err != nil {
+				return "error " + err.Error()
+			}
+			e, _ := m.Encode()
+			return fmt.Sprint(e, m.String() == e, m.BaseMetrics().String(), Z(m.Score()))
+		}
+		m, err := v2.NewEnvironmental().Decode(s)
+		if err != nil {
+			return "error " + err.Error()
+		}
+		e, _ := m.Encode()
+		return fmt.Sprint(e, m.String() == e, m.Base.String(), Z(m.Score()))
+	}
+	jobs := make([][]job, goroutines)
+	for g := range jobs {
+		for k := 0; k < 6; k++ {
+			jobs[g] = append(jobs[g], job{s: bulkVec3(g, k+g)}, job{s: bulkVec2(g, k+2*g)})
+		}
+		jobs[g] = append(jobs[g], job{s: vec3[g%len(vec3)]}, job{s: vec2[g%len(vec2)]}, job{s: bad3[g%len(bad3)]}, job{s: bad2[g%len(bad2)]})
+	}
+	got := make([][]string, goroutines)
+	var wg sync.WaitGroup
+	start := make(chan struct{})
+	for g := 0; g < goroutines; g++ {
+		g := g
+		wg.Add(1)
+		go func() {
+			defer wg.Done()
+			defer func() {
+				if p := recover(); p != nil {
+					got[g] = append(got[g], fmt.Sprintf("0\x00PANIC: %v", p))
+				}
+			}()
+			<-start
+			first := map[int]string{}
+			for r := 0; r < rounds; r++ {
+				for i, j := range jobs[g] {
+					res := run(j.s)
+					if f, ok := first[i]; !ok {
+						first[i] = res
+					} else if f != res && len(got[g]) < 3 {
+						got[g] = append(got[g], fmt.Sprintf("%d\x00%s", i, res))
+					}
+				}
+			}
+			for i := range jobs[g] {
+				got[g] = append(got[g], fmt.Sprintf("%d\x00%s", i, first[i]))
+			}
+		}()
+	}
+	close(start)
+	wg.Wait()
+	for g := range jobs {
+		ops += int64(rounds * len(jobs[g]))
+		for _, rec := range got[g] {
+			p := strings.SplitN(rec, "\x00", 2)
+			var i int
+			fmt.Sscan(p[0], &i)
+			if want := run(jobs[g][i].s); p[1] != want && len(mism) < 5 {
+				mism = append(mism, fmt.Sprintf("stress stage (%d goroutines, private objects): %s gave %q, sequentially %q", goroutines, jobs[g][i].s, p[1], want))
+			}
+		}
+	}
+	return mism, ops
 }
